@@ -360,3 +360,25 @@ PROPS["C05"] = Prop(
     technique="runtime monitor: canonical-dump equality, byte fixpoint and userdata callback log over export/import of derived topologies for each XML back-end pair, under gcc ASan+UBSan+LSan",
     level_text="exploration: derived topologies x {buffer,file} x 4 back-end pairs x {v3,v2}; equality is decided on a dump obtained through the public API only",
 )
+
+
+PROPS["C06"] = Prop(
+    "C06",
+    [Stage("asan", "c06_xmlfuzz", "asan", quick=16000, thorough=800000, per_worker_env=xml_backend_env)],
+    rule=("one input per case: a base document (corpus file 40%, v3 export of a small annotated topology 30%, v2-format export 20%, "
+          "diff document 10%) with 0 (8%), 1 (69%) or 2-3 structure-aware mutations (attribute value replaced by boundary/garbage "
+          "values incl. attribute-specific lists, tweaked, dropped, duplicated; element dropped, duplicated, moved, renamed; text "
+          "content replaced; truncation at element boundaries; byte replace/insert/delete; unstructured fragments), given by buffer "
+          "(exact-size heap block, with or without final NUL) or file to the import back end of the worker (even: nolibxml, odd: "
+          "libxml2). Oracles: 0/-1 returns, no sanitizer/leak/assert/CPU-limit event, WF + built-in checker + read-only battery "
+          "(CANON getters, snprintf, v3/v2/synthetic export, dup, destroy) on success, reuse (set_synthetic+load) after failure. "
+          "distinct+non-trivial = class 1: (mutation descriptor list, outcome) of topology inputs; class 2: diff inputs"),
+    nontrivial_classes=[1, 2], floor=500,
+    assumptions=COMMON_ASSUME + [
+        "set_xmlbuffer sizes are >= 1 and equal to the allocation (size documented as including the final NUL; both with and without one)",
+        "bounded time = 20 s of CPU per input (typical inputs take < 50 ms), re-run once before being reported as a hang",
+        "uninitialised reads are only visible to the valgrind sample of the thorough tier, not to ASan"],
+    technique="runtime monitor: structure-aware XML mutation fuzzing in forked ASan+UBSan+LSan processes with CPU-time limit; WF oracle, built-in checker and read-only battery on every successful load",
+    level_text=("exploration: mutated valid documents for both back ends and entry points; memory safety, leaks, hangs and assertion "
+                "failures are verdict-bearing for every input, well-formedness for every successful load"),
+)
